@@ -32,20 +32,20 @@ func xmlNameTag(t types.Type) (space, local string, has bool) {
 }
 
 type tagInfo struct {
-	Field     *types.Var
-	Name      string // element/attr local name ("" = default: field name)
-	Space     string
-	Attr      bool
-	Omit      bool
-	InnerXML  bool
-	CharData  bool
-	CData     bool
-	Any       bool
-	Comment   bool
-	Skip      bool
-	Embedded  bool
-	HasTag    bool
-	Path      []string // a>b>c
+	Field    *types.Var
+	Name     string // element/attr local name ("" = default: field name)
+	Space    string
+	Attr     bool
+	Omit     bool
+	InnerXML bool
+	CharData bool
+	CData    bool
+	Any      bool
+	Comment  bool
+	Skip     bool
+	Embedded bool
+	HasTag   bool
+	Path     []string // a>b>c
 }
 
 func parseXMLTag(f *types.Var, raw string) tagInfo {
